@@ -15,13 +15,14 @@ RULE = (
     'line-by-line transcription of the shipped R script (200 soil layers, np.allclose as the repository\'s own test). '
     'Transmissivity for (Ksmacz0 in 1e-4..1e5, alpha in (1, 20], zeta_max) on scalars and arrays against '
     'Ksmacz0 (zeta_max - zeta)^(1-alpha) / (100 (alpha - 1)) (1e-12 relative) and refusal above zeta_max.  '
-    'Non-trivial: parameter set differing from the published one in >= 2 parameters; distinct sets counted.'
+    'The same functions are also reached through the command line (`spowtd plot specific-yield|transmissivity --dump`, '
+    'YAML parameter file in, table out).  Non-trivial: parameter set differing from the published one in >= 2 parameters; distinct sets counted.'
 )
 ASSUMPTIONS = [
     'Rscript is not installed: the R reference is represented by a transcription (layer count 200 as in `for (j in 1:200)`), part of the trusted base',
     'the general clause uses the 201-layer discretisation the Python code documents; for the published set the two agree to 1e-11',
 ]
-SIZES = {'quick': dict(sy=120, T=6000), 'thorough': dict(sy=1600, T=100000)}
+SIZES = {'quick': dict(sy=120, T=6000, dump=24), 'thorough': dict(sy=1600, T=100000, dump=600)}
 REQUIRED = {
     tier: {
         'sy-tables-checked': 20,
@@ -33,6 +34,8 @@ REQUIRED = {
         'T-values-checked': 3000,
         'T-refusals-above-ceiling': 200,
         'T-array-calls': 200,
+        'dumped-sy-values-checked': 100,
+        'dumped-T-values-checked': 100,
     }
     for tier in ('quick', 'thorough')
 }
@@ -147,8 +150,49 @@ def check_T(ctx, rng, params):
         rec.violation('level-above-ceiling-accepted', {'params': params, 'level_mm': above, 'returned': np.asarray(v).tolist()}, dict(case, levels=[above]), 'peatclsm_T')
 
 
+def check_dump(ctx, rng):
+    """The same functions through `spowtd plot ... --dump` (YAML file in, table out)"""
+    from .. import dump_cli
+
+    rec = ctx.rec
+    rec.case()
+    psy = gen_params.peatclsm_sy(rng)
+    pT = gen_params.peatclsm_T(rng)
+    params = {'specific_yield': psy, 'transmissivity': pT}
+    p = {k: psy[k] for k in ('sd', 'theta_s', 'b', 'psi_s')}
+    levels, ref = oh.peatclsm_sy_profile(**p, layers=201)
+    lo_cm, hi_cm = rng.uniform(-120, -20), rng.uniform(0, 120)
+    rows, err = dump_cli.run_dump(ctx, 'specific-yield', params, lo_cm, hi_cm, rng.randint(3, 40))
+    case = {'kind': 'dump', 'params': params, 'range_cm': [lo_cm, hi_cm]}
+    if err:
+        rec.violation('plot-specific-yield-dump-fails', {'error': err, 'params': params}, case, 'dump')
+        return
+    scale = max(1e-6, float(np.max(np.abs(ref))))
+    for z_cm, v in rows:
+        exp = float(np.interp(z_cm * 10, levels, ref))
+        if abs(v - exp) > 1e-9 * scale:
+            rec.violation('dumped-specific-yield-differs-from-the-profile', {'level_cm': z_cm, 'dumped': v, 'expected': exp, 'params': params}, case, 'dump')
+            return
+    rec.hit('dumped-sy-values-checked', len(rows))
+    top_cm = pT['zeta_max_cm']
+    lo_cm, hi_cm = top_cm - rng.uniform(10, 150), top_cm - rng.uniform(0.01, 5)
+    rows, err = dump_cli.run_dump(ctx, 'transmissivity', params, lo_cm, hi_cm, rng.randint(3, 30))
+    if err:
+        rec.violation('plot-transmissivity-dump-fails', {'error': err, 'params': params}, case, 'dump')
+        return
+    for z_cm, v in rows:
+        exp = float(oh.peatclsm_transmissivity(z_cm * 10, pT['Ksmacz0'], pT['alpha'], pT['zeta_max_cm']))
+        if abs(v - exp) > 1e-9 * abs(exp):
+            rec.violation('dumped-transmissivity-differs-from-the-formula', {'level_cm': z_cm, 'dumped': v, 'expected': exp, 'params': pT}, case, 'dump')
+            return
+    rec.hit('dumped-T-values-checked', len(rows))
+
+
 def run(ctx):
     s = SIZES[ctx.tier]
+    rng = ctx.rng('dump')
+    for _ in range(ctx.share(s.get('dump', 0))):
+        check_dump(ctx, rng)
     rng = ctx.rng('sy')
     n = ctx.share(s['sy'])
     for i in range(n):
